@@ -67,19 +67,22 @@ impl LdpcDecoder for ProbeDecoder {
                     best = Some((i, d));
                 }
             }
-            match best {
-                Some((i, d)) if d <= std::f64::consts::LN_2 => {
-                    g.seen[i] += 1;
-                    if g.kept[i].len() < g.cap {
-                        g.kept[i].push(llrs.to_vec());
-                    }
-                }
-                _ => {
+            if let Some((i, d)) = best {
+                // a frame of very few symbols can legitimately be off its point's scale by more than
+                // a factor two (|1 + w| < 1/2 has probability 2e-5 per BPSK symbol at sigma 0.12), so
+                // such frames are only counted; they are judged with the point they are nearest to
+                if d > std::f64::consts::LN_2 {
                     g.stray_seen += 1;
                     if g.stray.len() < 8 {
                         g.stray.push(llrs.to_vec());
                     }
                 }
+                g.seen[i] += 1;
+                if g.kept[i].len() < g.cap {
+                    g.kept[i].push(llrs.to_vec());
+                }
+            } else {
+                g.stray_seen += 1;
             }
         }
         // hard decision with the first bit flipped: exactly one (systematic) bit error per frame
@@ -213,13 +216,28 @@ pub fn systematic_h(r: usize, n: usize, h0: &[bool], tail: &[bool], staircase: b
 }
 
 pub fn strategy(_t: Tier) -> BoxedStrategy<Case> {
-    (prop_oneof![3 => 1usize..=5, 2 => 6usize..=12], 1usize..=4, any::<u16>(), any::<bool>(), any::<bool>(), 0..4u8)
-        .prop_flat_map(|(p, bsm, rraw, staircase, psk8, patkind)| {
-            // block size multiple of 3: every transmitted length is a multiple of 3 (long patterns get small blocks)
-            let bs = 3 * if p > 6 { bsm.min(2) } else { bsm };
+    (prop_oneof![3 => 1usize..=5, 2 => 6usize..=12], 1usize..=4, any::<u16>(), any::<bool>(), any::<bool>(), 0..4u8, prop::bool::weighted(0.2))
+        .prop_flat_map(|(p, bsm, rraw, staircase, psk8, patkind, odd)| {
+            // block size multiple of 3: every transmitted length is a multiple of 3 (long patterns get small blocks).
+            // `odd`: block size and pattern length not multiples of 3, so that the codeword length is not
+            // one either; with 8PSK the pattern then keeps 3, 6 or 9 blocks (the transmitted length is a
+            // multiple of 3 although the codeword length is not)
+            let (p, bs) = if odd {
+                let mut p = p.max(4);
+                if p % 3 == 0 {
+                    p += 1;
+                }
+                (p, [1usize, 2, 4, 5][bsm - 1].min(if p > 6 { 2 } else { 5 }))
+            } else {
+                (p, 3 * if p > 6 { bsm.min(2) } else { bsm })
+            };
             let n = p * bs;
             let r = 2 + idx(rraw, (n - 2).min(11)); // 2 <= r <= min(12, n-1)
             let pattern: BoxedStrategy<Option<Vec<bool>>> = match patkind {
+                _ if odd && psk8 => {
+                    let t = 3 * ((p - 1) / 3);
+                    Just((0..p).map(|i| i < t).collect::<Vec<bool>>()).prop_shuffle().prop_map(Some).boxed()
+                }
                 0 => Just(None).boxed(),
                 1 if p == 5 => Just(Some(vec![true, true, true, true, false])).boxed(),
                 _ => (proptest::collection::vec(any::<bool>(), p), any::<u16>())
@@ -339,8 +357,13 @@ pub fn check(c: &Case, p: &mut Probe) -> Check {
     ensure!(stats.len() == npts, "stats", "{npts} Eb/N0 point(s) requested, {} statistics entries returned {ctx0}", stats.len());
     let st = std::mem::take(&mut *frames.lock().unwrap());
     // every frame the engine decoded carried the LLR scale of one of the requested points
-    if let Some(f) = st.stray.first() {
-        return Err(Fail::new("llr-scale", format!("{} frame(s) reached the decoder with a mean |LLR| of {:.4e}, more than a factor 2 away from the scale of every requested Eb/N0 point ({:.4?}) {ctx0}", st.stray_seen, llr_scale(f), st.expected)));
+    // the bulk of the frames carries the LLR scale of one of the requested points (single short frames
+    // may stray, see the probe; a wrong scale on all frames of a point cannot)
+    let total_seen: u64 = st.seen.iter().sum::<u64>() + 1;
+    p.metric("stray_frame_share", st.stray_seen as f64 / total_seen as f64);
+    if st.stray_seen * 2 > total_seen {
+        let f = st.stray.first().cloned().unwrap_or_default();
+        return Err(Fail::new("llr-scale", format!("{} of {} frames reached the decoder with a mean |LLR| more than a factor 2 away from the scale of every requested Eb/N0 point (e.g. {:.4e}; requested scales {:.4?}) {ctx0}", st.stray_seen, total_seen - 1, llr_scale(&f), st.expected)));
     }
     for i in 0..npts {
         ensure!(st.seen[i] >= stats[i].num_frames.min(1), "no-frames", "the statistics report {} frames for Eb/N0 {} dB but no frame with the LLR scale of that point (mean |LLR| ~ {:.4e}) reached the decoder (frames seen per point: {:?}) {ctx0}", stats[i].num_frames, ebn0s_db[i], st.expected[i], st.seen);
@@ -509,6 +532,7 @@ pub fn check(c: &Case, p: &mut Probe) -> Check {
     p.class_if(c.interleaver.is_some_and(|x| x < 0), "backward-interleaver");
     p.class_if(info_punctured, "information-block-punctured");
     p.class_if(npts >= 2, "several-ebn0-points");
+    p.class_if(n % 3 != 0, "codeword-length-not-multiple-of-3");
     if (has_p && has_i) || (c.psk8 && (has_p || has_i)) {
         p.nontrivial();
     }
@@ -520,7 +544,7 @@ pub fn property() -> Property {
         id: "C12",
         subs: vec![Box::new(Sub {
             name: "llr-frames",
-            rule: "configurations: systematic H by construction ([H0 | staircase] or [H0 | unit lower triangular], 2 <= r <= 12, n = p x bs with pattern length p in 1..=12 and bs a multiple of 3), puncturing pattern none / AR4JA-like 1,1,1,1,0 / random with >= 1 true (may puncture information blocks), interleaver none or +-c with c a divisor of the transmitted length, BPSK or 8PSK, Eb/N0 chosen for an expected sigma of 0.08-0.13 (BPSK) or 0.025-0.048 (8PSK); one Eb/N0 point, or two or three in any order whose sigmas halve from level to level (frames are attributed to a point by their mean |LLR|, which differs by a factor >= 4 between points; a frame more than a factor 2 away from every point's scale, or a point whose statistics report frames although none of its scale reached the decoder, is a violation), through BerTest::new or BerTestBuilder; a probe DecoderFactory records every LLR vector and answers Err with one systematic bit flipped. Oracles per frame: length n; punctured positions bit-exactly +0.0, all others finite and non-zero; signs equal the own systematic re-encoding of the first k sign bits (or, when information blocks are punctured, extend to a codeword by an own GF(2) solve); reported k, N_cw, N, rate. no two recorded frames bit-identical (independence across frames and workers). Noise: received samples recovered from the LLRs (BPSK exactly, 8PSK by Gauss-Newton inversion of the own exact LLR function) with the expected sigma computed from (k, N after puncturing, bits per symbol, Eb/N0); mean, variance (Wilson-Hilferty), <w,s> scale statistic, lag-1 and re/im correlation within +-7 sigma, per Eb/N0 point, once >= 3500 samples were collected for it. Non-trivial = puncturing and interleaving both present, or 8PSK with either; inner = frames examined",
+            rule: "configurations: systematic H by construction ([H0 | staircase] or [H0 | unit lower triangular], 2 <= r <= 12, n = p x bs with pattern length p in 1..=12 and bs a multiple of 3; in a fifth of the cases neither p nor bs is a multiple of 3, and with 8PSK the pattern then keeps 3, 6 or 9 blocks, so that the transmitted length is a multiple of 3 although the codeword length is not), puncturing pattern none / AR4JA-like 1,1,1,1,0 / random with >= 1 true (may puncture information blocks), interleaver none or +-c with c a divisor of the transmitted length, BPSK or 8PSK, Eb/N0 chosen for an expected sigma of 0.08-0.13 (BPSK) or 0.025-0.048 (8PSK); one Eb/N0 point, or two or three in any order whose sigmas halve from level to level (frames are attributed to a point by their mean |LLR|, which differs by a factor >= 4 between points; a point whose statistics report frames although none of its scale reached the decoder is a violation, as is a majority of frames more than a factor 2 away from every point's scale), through BerTest::new or BerTestBuilder; a probe DecoderFactory records every LLR vector and answers Err with one systematic bit flipped. Oracles per frame: length n; punctured positions bit-exactly +0.0, all others finite and non-zero; signs equal the own systematic re-encoding of the first k sign bits (or, when information blocks are punctured, extend to a codeword by an own GF(2) solve); reported k, N_cw, N, rate. no two recorded frames bit-identical (independence across frames and workers). Noise: received samples recovered from the LLRs (BPSK exactly, 8PSK by Gauss-Newton inversion of the own exact LLR function) with the expected sigma computed from (k, N after puncturing, bits per symbol, Eb/N0); mean, variance (Wilson-Hilferty), <w,s> scale statistic, lag-1 and re/im correlation within +-7 sigma, per Eb/N0 point, once >= 3500 samples were collected for it. Non-trivial = puncturing and interleaving both present, or 8PSK with either; inner = frames examined",
             cases: |t| t.pick(500, 20_000),
             strategy,
             check,
